@@ -79,6 +79,61 @@ Print Assumptions C15_sync_all_run.
 Print Assumptions C15_every_job_exactly_once.
 Print Assumptions C15_sync_every_job_exactly_once.
 
+(* ------------------------------------------------------------------------------------------------
+   Full strength and what is excluded.  The property quantifies over every submission, including a
+   second submission with rerun=True over a cache that already holds results.  run_async_warm starts
+   the same loop over an arbitrary cache content w0. *)
+Definition C15_full_statement : Prop :=
+  forall (V : Type) (body : nat -> nat -> list (list (option V)) -> V) (fails : job -> bool)
+         (g : graph) (kmax : option nat) (w0 : world V) (orc : list oracle_step) (fuel : nat),
+    wf_graph g ->
+    starts_after_upstream g (event_log (run_async_warm V body fails repaired g kmax w0 orc fuel)).
+
+(* excluded input class (mirrored by the driver's classifier for finding F15): the cache is warm *)
+Definition warm_cache {V : Type} (w0 : world V) : bool :=
+  negb (is_nil (results w0)) || negb (is_nil (visible w0)).
+
+(* Finding F15 (known, not repaired): n0, n1 independent, n2 consumes n0; the cache holds a result for
+   every job; n1 completes while n0 is still pending: n0's stale result is taken for its completion
+   and n2 is launched before n0 finishes. *)
+Definition f15_graph : graph := [mkNode 0 [] 1; mkNode 1 [] 1; mkNode 2 [0] 1].
+Definition f15_cache : world unit := mkW [((0, 0), Some tt); ((1, 0), Some tt); ((2, 0), Some tt)] [].
+
+Definition f15_run : outcome unit :=
+  run_async_warm unit (fun _ _ _ => tt) (fun _ => false) repaired f15_graph None f15_cache [mkStep [1] []] 20.
+
+Theorem C15_refuted_warm_rerun : ~ C15_full_statement.
+Proof.
+  intros H.
+  assert (E : event_log f15_run =
+              [ELaunch (0, 0); ELaunch (1, 0); EFinish (1, 0) true; ELaunch (2, 0); EFinish (0, 0) true; EFinish (2, 0) true])
+    by (vm_compute; reflexivity).
+  assert (B : starts_after_upstream f15_graph (event_log f15_run)).
+  { unfold f15_run. apply H. reflexivity. }
+  rewrite E in B.
+  specialize (B [ELaunch (0, 0); ELaunch (1, 0); EFinish (1, 0) true] (2, 0) [EFinish (0, 0) true; EFinish (2, 0) true]
+                eq_refl (0, 0) (or_introl eq_refl)).
+  cbn in B. destruct B as [B|[B|[B|[]]]]; discriminate.
+Qed.
+Print Assumptions C15_refuted_warm_rerun.
+
+Theorem C15_partial :
+  forall (V : Type) (body : nat -> nat -> list (list (option V)) -> V) (fails : job -> bool)
+         (g : graph) (kmax : option nat) (w0 : world V) (orc : list oracle_step) (fuel : nat),
+    wf_graph g -> warm_cache w0 = false ->
+    starts_after_upstream g (event_log (run_async_warm V body fails repaired g kmax w0 orc fuel))
+    /\ at_most_once (event_log (run_async_warm V body fails repaired g kmax w0 orc fuel)).
+Proof.
+  intros V body fails g kmax w0 orc fuel WF C.
+  assert (E : w0 = w_init V).
+  { unfold warm_cache in C. apply orb_false_iff in C. destruct C as [A B].
+    destruct w0 as [r v]. cbn in A, B. destruct r; [|discriminate]. destruct v; [|discriminate]. reflexivity. }
+  subst w0. split.
+  - apply (C15_safety V body fails repaired g kmax eq_refl WF).
+  - apply (C15_at_most_once V body fails repaired g kmax eq_refl WF).
+Qed.
+Print Assumptions C15_partial.
+
 (* the hypotheses are met by the repaired code on a diamond with split nodes, and such a run does
    end by itself (status Finished) with all 7 jobs launched *)
 Example C15_hyps_nonvacuous :
